@@ -2,7 +2,9 @@
 from vlib.framework import PUnit, LUnit, BUnit
 from bounded import b_genparams as B
 
-P_UNITS = []
+from contracts import modifications as M
+
+P_UNITS = [PUnit("modification-target-by-resid", M.CONTRACTS, M.REG)]
 
 
 def build(tier, seed):
